@@ -1327,6 +1327,13 @@ def present_in_map(self, s, args):
                 kk = G.describe(b, t["args"][1])
                 if repr(kk) == k or (kk.kind == "call" and kk.v.endswith("::clone") and repr(kk.args[0]) == k):
                     f.add("present")
+            if nm == "dashmap::DashMap::entry" and repr(G.describe(b, t["args"][0])) == m:
+                # map.entry(k).or_insert(v): the key is present afterwards (established at the or_insert call)
+                from rules import locks as _L
+
+                kk = G.describe(b, t["args"][1])
+                if (repr(kk) == k or (kk.kind == "call" and kk.v.endswith("::clone") and repr(kk.args[0]) == k)) and _L.insert_if_absent_via_entry(b, bi) is not None:
+                    f.add("present")
         if t["k"] == "switch":
             vv = G.describe(b, t["op"])
             if vv.kind == "call" and vv.v == "dashmap::DashMap::contains_key" and repr(vv.args[0]) == m and repr(vv.args[1]) == k:
@@ -1349,6 +1356,11 @@ def present_in_map(self, s, args):
         for bi, t in body.calls():
             nm = mir.strip_generics(mir.callee_name(t) or "")
             if nm.startswith("dashmap::DashMap::") and nm.split("::")[-1] in ("remove", "remove_if", "clear", "retain", "alter", "alter_all", "shrink_to_fit", "get_mut", "entry", "iter_mut") and t["args"]:
+                if nm.split("::")[-1] == "entry":
+                    from rules import locks as _L2
+
+                    if _L2.insert_if_absent_via_entry(body, bi) is not None:
+                        continue
                 if repr(G.describe(body, t["args"][0])).endswith("." + field):
                     return False, "%s calls %s on the cache" % (body.short, nm)
     return True, "insert/contains_key of the same key precedes the lookup on every path; no remove/clear/retain on .%s in the crate" % field
